@@ -295,6 +295,36 @@ def build(run):
         return proved("z3(path-exhaustive)", vcs=nv, sample=f"{len(cases)} operators against their definitions on all paths ({nv} VCs) and {conc} concrete boundary evaluations")
     run.add("operators/comparison-built-operators-have-their-mathematical-point-values", operator_definitions, kind="values")
 
+    # ---- one-dimensional domains: a point may be given as a plain number; every expression over the coordinate evaluates there as at the 1-tuple
+    def scalar_points():
+        import ufv.elements as E_
+        m1 = ufl.Mesh(E_.LagrangeElement(ufl.interval, 1, (1,)))
+        x1 = ufl.SpatialCoordinate(m1)
+        h1 = ufl.Coefficient(ufl.FunctionSpace(m1, E_.LagrangeElement(ufl.interval, 2)))
+        cases = {"x": lambda: x1, "x[0]": lambda: x1[0], "sin(x[0])": lambda: sin(x1[0]), "x[0]**2 + 3*x[0]": lambda: x1[0] ** 2 + 3 * x1[0], "h*x[0]": lambda: h1 * x1[0],
+                 "conditional(x[0] < 1/2, x[0], 1 - x[0])": lambda: conditional(lt(x1[0], 0.5), x1[0], 1 - x1[0]), "as_vector([x[0], 2*x[0]])[1]": lambda: as_vector([x1[0], 2 * x1[0]])[1]}
+        n = 0
+        for nm_, mk_ in cases.items():
+            e_ = mk_()
+            for pt in (0.3, 0.0, 1.0, -2.5):
+                args = (({h1: 2.0},) if "h" in nm_ else ({},))
+                comp = ((0,),) if e_.ufl_shape else ()
+                try:
+                    want = e_((pt,), *args, *comp)
+                except Exception:  # noqa: BLE001
+                    continue
+                n += 1
+                try:
+                    got = e_(pt, *args, *comp)
+                except (TypeError, IndexError, KeyError, AttributeError) as ex:
+                    from ufv.core import crash_text
+                    return violated(f"{nm_} on an interval mesh evaluates at the point ({pt},) but fails at the same point given as the number {pt}: {crash_text(ex)}",
+                                    replay={"expr": nm_, "point": pt}, reproduced=True, backend="exec")
+                if got != want:
+                    return violated(f"{nm_} on an interval mesh: value {got} at the number {pt}, {want} at the tuple ({pt},)", replay={"expr": nm_, "point": pt}, reproduced=True, backend="exec")
+        return bounded_ok(n, "7 expressions over the coordinate of an interval mesh x 4 points, each given as a number and as a 1-tuple", sample="same value for both spellings of the point")
+    run.add("evaluate/points-of-one-dimensional-domains-given-as-numbers", scalar_points, kind="bounded")
+
     # ---- guarded conditionals: the UNSELECTED branch is undefined at the point (division by zero, ln / sqrt of a negative number, a mapped callable
     # that raises).  Contract: e(x, mapping) is the value of the selected branch; evaluating must not touch the other branch.
     def guarded():
